@@ -66,12 +66,17 @@ struct World<C> {
     rng: CounterRng,
     log: Log,
     outside: bool,
-    sampler: Box<dyn Fn(&SpanCtxt) -> bool + Send + Sync>,
+    sampler: Arc<dyn Fn(&SpanCtxt) -> bool + Send + Sync>,
+    /// VARIANT = setup: the filter `emit_traceparent::setup()` / `setup_with_sampler(..)` installed in the runtime
+    rt_filter: Option<&'static (dyn emit::filter::ErasedFilter + Send + Sync)>,
 }
 
 /// The runtime filter, wrapped so that the span's own ids and the verdict are recorded.
 /// `TraceparentFilter` with the scripted sampler, or the sampler-less one
 fn tp_matches<C, E: emit::event::ToEvent>(w: &World<C>, evt: E) -> bool {
+    if let Some(f) = w.rt_filter {
+        return f.matches(evt);
+    }
     if w.has_sampler {
         TraceparentFilter::new_with_sampler(|c: &SpanCtxt| (w.sampler)(c)).matches(evt)
     } else {
@@ -313,22 +318,35 @@ fn run(line: &str) -> String {
         let outside = a[3].as_bool()?;
         let progs = &a[4..];
         let concrete: Ctx = TraceparentCtxt::new(emit::platform::thread_local_ctxt::ThreadLocalCtxt::new());
+        let sh = Shared::new(decisions);
         match variant.as_str() {
-            "concrete" => go(concrete, has_sampler, decisions, outside, progs),
+            "concrete" => go(concrete, None, has_sampler, sh, outside, progs),
             "boxdyn" => {
                 let c: Box<dyn emit::ctxt::ErasedCtxt + Send + Sync> = Box::new(concrete);
-                go(c, has_sampler, decisions, outside, progs)
+                go(c, None, has_sampler, sh, outside, progs)
             }
             "arcdyn" => {
                 let c: Arc<dyn emit::ctxt::ErasedCtxt + Send + Sync> = Arc::new(concrete);
-                go(c, has_sampler, decisions, outside, progs)
+                go(c, None, has_sampler, sh, outside, progs)
             }
-            "assert" => go(emit::runtime::AssertInternal(concrete), has_sampler, decisions, outside, progs),
+            "assert" => go(emit::runtime::AssertInternal(concrete), None, has_sampler, sh, outside, progs),
             "slot" => {
                 // the erased ctxt of an ambient runtime, as `emit_traceparent::setup().init()` installs it
                 let slot: &'static emit::runtime::AmbientSlot = Box::leak(Box::new(emit::runtime::AmbientSlot::new()));
                 let _init = emit::setup().with_ctxt(concrete).init_slot(slot);
-                go(slot.get().ctxt(), has_sampler, decisions, outside, progs)
+                go(slot.get().ctxt(), None, has_sampler, sh, outside, progs)
+            }
+            "setup" => {
+                // the documented entry points: `emit_traceparent::setup()` / `setup_with_sampler(sampler)` build the
+                // filter and wrap the default ctxt; the stream then uses the runtime's own erased filter and ctxt
+                let slot: &'static emit::runtime::AmbientSlot = Box::leak(Box::new(emit::runtime::AmbientSlot::new()));
+                if has_sampler {
+                    let s2 = sh.sampler.clone();
+                    let _ = emit_traceparent::setup_with_sampler(move |c: &SpanCtxt| s2(c)).init_slot(slot);
+                } else {
+                    let _ = emit_traceparent::setup().init_slot(slot);
+                }
+                go(slot.get().ctxt(), Some(*slot.get().filter()), has_sampler, sh, outside, progs)
             }
             _ => None,
         }
@@ -336,25 +354,51 @@ fn run(line: &str) -> String {
     .unwrap_or_else(|| "bad-case".into())
 }
 
-fn go<C: Held>(ctxt: C, has_sampler: bool, decisions: Vec<bool>, outside: bool, progs: &[Sexp]) -> Option<String>
+/// the log, the sampler call counter and the scripted sampler of one case
+struct Shared {
+    log: Log,
+    calls: Arc<AtomicUsize>,
+    sampler: Arc<dyn Fn(&SpanCtxt) -> bool + Send + Sync>,
+}
+
+impl Shared {
+    fn new(decisions: Vec<bool>) -> Shared {
+        let log: Log = Arc::new(Mutex::new(Vec::new()));
+        let calls = Arc::new(AtomicUsize::new(0));
+        let (log2, calls2) = (log.clone(), calls.clone());
+        Shared {
+            log,
+            calls,
+            sampler: Arc::new(move |c: &SpanCtxt| {
+                let i = calls2.fetch_add(1, Ordering::SeqCst);
+                let d = decisions.get(i).copied().unwrap_or(false);
+                log2.lock().unwrap().push(format!("(sampler {} {} {})", tid(c.trace_id()), sid(c.span_id()), d));
+                d
+            }),
+        }
+    }
+}
+
+fn go<C: Held>(
+    ctxt: C,
+    rt_filter: Option<&'static (dyn emit::filter::ErasedFilter + Send + Sync)>,
+    has_sampler: bool,
+    sh: Shared,
+    outside: bool,
+    progs: &[Sexp],
+) -> Option<String>
 where
     C::Frame: Send,
 {
-    let log: Log = Arc::new(Mutex::new(Vec::new()));
-    let calls = Arc::new(AtomicUsize::new(0));
-    let (log2, calls2) = (log.clone(), calls.clone());
+    let Shared { log, calls, sampler } = sh;
     let w = World {
         ctxt,
         has_sampler,
         rng: CounterRng(AtomicU64::new(0)),
         log: log.clone(),
         outside,
-        sampler: Box::new(move |c: &SpanCtxt| {
-            let i = calls2.fetch_add(1, Ordering::SeqCst);
-            let d = decisions.get(i).copied().unwrap_or(false);
-            log2.lock().unwrap().push(format!("(sampler {} {} {})", tid(c.trace_id()), sid(c.span_id()), d));
-            d
-        }),
+        sampler,
+        rt_filter,
     };
     // every case runs on a fresh thread so that no active traceparent leaks in from a previous case
     let out = std::thread::scope(|sc| {
@@ -421,7 +465,7 @@ fn gen(rng: &mut Rng, tier: Tier, n: usize) -> Vec<String> {
             let ds = (0..nd).map(|_| Sexp::bool(rng.chance(3, 5))).collect();
             let mut budget = 1 + rng.usize(size);
             let top = 1 + rng.usize(3);
-            let variant = *rng.pick(&["concrete", "concrete", "boxdyn", "arcdyn", "assert", "slot"]);
+            let variant = *rng.pick(&["concrete", "concrete", "boxdyn", "arcdyn", "assert", "slot", "setup"]);
             let mut v = vec![Sexp::atom(variant), Sexp::bool(rng.chance(3, 4)), Sexp::tagged("decisions", ds), Sexp::bool(rng.bool())];
             for _ in 0..top {
                 v.push(gen_prog(rng, depth, &mut budget));
